@@ -54,6 +54,11 @@ SAME = [
     ("slice call", "def f(v, a, b):\n    s = slice(a, b)\n    return v[s]", "def f(v, a, b):\n    return v[a:b]"),
     ("dict items", "def f(d):\n    return [d[k].x for k, v in d.items()]", "def f(d):\n    return [v.x for k, v in d.items()]"),
     ("continue vs nested if", "def f(xs):\n    out = []\n    for x in xs:\n        if x < 0:\n            continue\n        out.append(x)\n    return out", "def f(xs):\n    out = []\n    for x in xs:\n        if not x < 0:\n            out.append(x)\n    return out"),
+    ("callee chosen ahead", "def f(c, a):\n    if c:\n        return g(a)\n    return h(a)", "def f(c, a):\n    k = g if c else h\n    return k(a)"),
+    ("loop over literal table", "def f(x, lo, hi):\n    if x < lo:\n        raise ValueError('low')\n    if x > hi:\n        raise ValueError('high')\n    return x", "def f(x, lo, hi):\n    for bad, msg in ((x < lo, 'low'), (x > hi, 'high')):\n        if bad:\n            raise ValueError(msg)\n    return x"),
+    ("dict() vs literal", "def f(a, b):\n    return g(dict(x=a, y=b))", "def f(a, b):\n    return g({'x': a, 'y': b})"),
+    ("private literal table", "def f(k):\n    return {'a': 1, 'b': 2}[k]", "def f(k):\n    return _TABLE[k]"),
+    ("continue then store", "def f(d):\n    out = {}\n    for k, v in d.items():\n        if k in skip:\n            continue\n        if v.ok:\n            out[k] = v\n    return out", "def f(d):\n    return {k: v for k, v in d.items() if k not in skip and v.ok}"),
     ("cast/bool transparent", "def f(a, c):\n    return cast(int, a) if bool(c) else 0", "def f(a, c):\n    return a if c else 0"),
 ]
 DIFFERENT = [
@@ -66,7 +71,7 @@ DIFFERENT = [
     ("list concat order", "def f(a, b):\n    return a[1:] + b[:]", "def f(a, b):\n    return b[:] + a[1:]"),
     ("factor", "def f(x):\n    return 2 * x", "def f(x):\n    return x"),
 ]
-MOD = "_TWO_PI = 2 * np.pi\n"
+MOD = "_TWO_PI = 2 * np.pi\n_TABLE = {'a': 1, 'b': 2}\n"
 
 
 def main() -> int:
@@ -94,6 +99,23 @@ def main() -> int:
         (sym.match(P("Q_a * Q_b").term, ret("def f(x, y):\n    return y * x")) is not None, "product matched up to permutation"),
         (sym.match(P("Q_a != Q_b.phase").term, ret("def f(x, y):\n    return y.phase != x + 1")) is not None, "symmetric comparison"),
     ]
+    # positional and keyword spellings of one call match when the signature is known
+    sym.SIGS.clear()
+    sym.SIGS["__program__"] = [0]
+    sym.SIGS["mk"] = [(("duration", "amp", "det"), False)]
+    checks.append((sym.match(P("mk(Q_d, 0.0, Q_x)").term, ret("def f(t, d):\n    return mk(duration=t, amp=0.0, det=d)")) is not None, "keyword call matches positional pattern"))
+    checks.append((sym.match(P("mk(Q_d, 0.0, Q_x)").term, ret("def f(t, d):\n    return mk(duration=t, amp=1.0, det=d)")) is None, "keyword call with another value does not match"))
+    sym.SIGS.clear()
+    # symbolic bounds
+    from pstatic import bounds
+
+    pv = bounds.Prover(axioms=[(bounds.ZERO, ("name", "n"))])
+    clamp = ret("def f(x, n):\n    if x < 0:\n        x = 0\n    if x > n:\n        x = n\n    return x")
+    half = ret("def f(x, n):\n    return min(x, n)")
+    clip = ret("def f(x, n):\n    return min(max(x, 0), n)")
+    checks.append((pv.ge(clamp, bounds.ZERO) and pv.ge(("name", "n"), clamp), "bounds: if-clamp within [0, n]"))
+    checks.append((pv.ge(clip, bounds.ZERO) and pv.ge(("name", "n"), clip), "bounds: min/max clamp within [0, n]"))
+    checks.append((not pv.ge(half, bounds.ZERO) and pv.ge(("name", "n"), half), "bounds: upper clamp only is not >= 0"))
     for ok, name in checks:
         if not ok:
             bad += 1
